@@ -113,4 +113,13 @@ def hostile_cbor():
         bytes.fromhex("7f6161ff"), bytes.fromhex("5f4101ff"), bytes.fromhex("bf0001ff"),
         bytes.fromhex("a2010101 02".replace(" ", "")), bytes.fromhex("a1f90000 00".replace(" ", "")), bytes.fromhex("a18000"),
     ]
+    # bignums (tags 2 / 3) of growing size, bare and as a map value: integers far beyond what the interpreter converts to text by default
+    import struct
+    def bstr(n):
+        return (bytes([0x40 + n]) if n < 24 else b"\x58" + bytes([n]) if n < 256 else b"\x59" + struct.pack(">H", n) if n < 65536 else b"\x5a" + struct.pack(">I", n)) + b"\xff" * n
+    for n in (1, 9, 17, 65, 257, 1025, 2000, 4097, 65537):
+        for tag in (b"\xc2", b"\xc3"):
+            out.append(tag + bstr(n))
+            out.append(b"\xa1\x61\x6e" + tag + bstr(n))
+            out.append(b"\xa2\x01\x02\x20" + tag + bstr(n))
     return out
